@@ -20,6 +20,11 @@ theorem natToDec_digits (n : Nat) : ∀ c ∈ natToDec n, 48 ≤ c ∧ c ≤ 57 
     · exact ih c hc
     · omega
 
+theorem natToDec_all_isDigit (v : Nat) : (natToDec v).all isDigit = true := by
+  rw [List.all_eq_true]; intro c hc
+  have := natToDec_digits v c hc
+  simp [isDigit]; omega
+
 theorem natToDec_ne_nil (n : Nat) : natToDec n ≠ [] := by
   fun_induction natToDec n with
   | case1 n h => simp
